@@ -117,6 +117,9 @@ impl ClientPlan {
                 intermediate_timeout: None,
                 script_order: 0,
                 decorated: 0,
+                reversal_abort_receipt: None,
+                close_after_each_exchange: false,
+                handshake_pace_ms: 0,
             },
             init: ConfigureOutcome::plain(),
             ops,
